@@ -39,6 +39,7 @@ ASSUMPTIONS = [
 ]
 MIN_NONTRIVIAL = {"quick": 4000, "thorough": 100000}
 TIMEOUT = {"quick": 1500, "thorough": 10800}
+AMBIENT = {"tests": ['test_ode.py', 'test_frclim.py'], "monitors": ['fsolve'], "quick": False}
 
 INCRB = ["", "d", "v", "a", "dv", "da", "va", "dva"]
 KINDS = ["diag-real", "diag-complex", "coup-real", "coup-complex"]
